@@ -33,8 +33,39 @@ def warm_up():
                 outcome(fn, pools.obj(ob))
 
 
+def _engine_tasks(what, args):
+    """(engine module, task list) of a property check, shared by the checks and the digest self-test."""
+    if what == "C12":
+        from . import schedsim as eng
+        n = args.runs or (2400 if args.tier == "quick" else 60000)
+        return eng, driver.seeds_for(args.seed, "C12", n)
+    if what in ("C11", "C20"):
+        from . import histsim as eng
+        n = args.runs or ({"C11": 4000, "C20": 5000}[what] if args.tier == "quick" else {"C11": 150000, "C20": 200000}[what])
+        return eng, [{**t, "cfg": {"profile": what.lower()}} for t in driver.seeds_for(args.seed, what, n)]
+    if what == "C09":
+        from . import bussim as eng
+        n = args.runs or (20000 if args.tier == "quick" else 1000000)
+        return eng, driver.seeds_for(args.seed, "C09", n)
+    raise ValueError(what)
+
+
 def dispatch(args):
     what = args.what
+    if what == "selftest-sensitivity":
+        from . import selftest
+        return selftest.sensitivity(args)
+    if what == "selftest-determinism":
+        from . import selftest
+        return selftest.determinism(args)
+    if what == "digests":
+        from . import selftest
+        eng, tasks = _engine_tasks(args.what_check, args)
+        if args.what_check != "C09":
+            warm_up()
+        per = driver.run_digests(eng, tasks, args.workers)
+        print(f"DIGESTS {selftest.batch_digest(per)} n={len(per)} errors={sum(1 for d in per if str(d).startswith('ERR'))}")
+        return 0
     if what == "C12":
         from . import schedsim as eng
         warm_up()
